@@ -38,6 +38,10 @@ type Task struct {
 	exited  atomic.Bool
 	adopted bool
 	budget  int // parallel mode: optional yields this task may still pass through
+	// heldFor: child-first scheduling - this task is not scheduled while the task it
+	// spawned is runnable (see Config.ChildFirst); heldSteps bounds the hold
+	heldFor   *Task
+	heldSteps int
 	// Group names the simulated process instance this task belongs to (inherited
 	// by the tasks it spawns); a frozen group is never scheduled again (crash).
 	Group string
@@ -101,6 +105,12 @@ type Config struct {
 	// goroutine at any instruction. The sticky scheduler alone rarely preempts
 	// a task in the middle of a short critical sequence.
 	StallProb float64
+	// ChildFirst > 0: at a go statement the spawning task is, with this probability,
+	// held back until the new task blocks or ends ("the goroutine runs before the
+	// statement after go") - the schedule in which a notification started by a
+	// goroutine arrives before its requester has finished, which the sticky
+	// scheduler reaches only through a long run of unlikely choices.
+	ChildFirst float64
 	// OnlySites, when non-empty, restricts optional yield points to sites
 	// containing one of these substrings (site-targeted strategy).
 	OnlySites []string
@@ -418,6 +428,14 @@ func (s *Sched) spawn(label string, f func()) *Task {
 	t := &Task{Label: label, wake: make(chan struct{})}
 	if p := s.current(); p != nil {
 		t.Group = p.Group
+	}
+	if p := s.current(); p != nil && s.cfg.ChildFirst > 0 && s.cfg.Parallel == 0 && !s.aborting.Load() {
+		if s.choose("child-first", 2, 1-s.cfg.ChildFirst) == 1 {
+			s.mu.Lock()
+			p.heldFor, p.heldSteps = t, 0
+			s.mu.Unlock()
+			s.Fault("child-first")
+		}
 	}
 	s.mu.Lock()
 	s.tasks = append(s.tasks, t)
@@ -802,18 +820,48 @@ func (s *Sched) Run(invariant func() string) string {
 	}
 }
 
+// held reports whether t is held back for the task it spawned (s.mu held). The hold
+// ends when that task has ended, is not runnable (it blocks or sleeps), belongs to a
+// frozen group, or after 64 scheduling decisions.
+func (s *Sched) held(t *Task) bool {
+	c := t.heldFor
+	if c == nil {
+		return false
+	}
+	_, runnable := s.parked[c]
+	if c.exited.Load() || !runnable || (c.Group != "" && s.frozen[c.Group]) || t.heldSteps >= 64 {
+		t.heldFor = nil
+		return false
+	}
+	t.heldSteps++
+	return true
+}
+
 func (s *Sched) enabled(now time.Time) []action {
 	s.mu.Lock()
 	defer s.mu.Unlock()
 	acts := make([]action, 0, len(s.parked)+4)
-	if s.last != nil && !s.frozen[s.last.Group] {
-		if _, ok := s.parked[s.last]; ok {
-			acts = append(acts, action{t: s.last})
+	// the task that ran last comes first (the sticky choice) - or, if it is held back for
+	// a task it spawned, that task
+	lead := s.last
+	for lead != nil {
+		if _, ok := s.parked[lead]; !ok || !s.held(lead) {
+			break
 		}
+		lead = lead.heldFor
+	}
+	if lead != nil && !s.frozen[lead.Group] {
+		if _, ok := s.parked[lead]; ok {
+			acts = append(acts, action{t: lead})
+		} else {
+			lead = nil
+		}
+	} else {
+		lead = nil
 	}
 	rest := make([]*Task, 0, len(s.parked))
 	for t := range s.parked {
-		if t != s.last && !(t.Group != "" && s.frozen[t.Group]) {
+		if t != lead && !(t.Group != "" && s.frozen[t.Group]) && !s.held(t) {
 			rest = append(rest, t)
 		}
 	}
